@@ -264,7 +264,7 @@ theorem core_panicked {m : Mem} {hl : LY.Layout} {hdr : Option Item} {rl : Optio
   have := fromHeaderAndIterCore_spec m hl hdr rl ty n it
   rw [h] at this; exact this
 
-theorem runIterCtor_spec (m : Mem) (dbg : Bool) (which : IterCtor) (h : Option Item) (sc : IterScript) :
+theorem runIterCtor_shape (m : Mem) (dbg : Bool) (which : IterCtor) (h : Option Item) (sc : IterScript) :
     (runIterCtor m dbg which h sc).Spec m := by
   cases which
   case hsFromIter => exact fromHeaderAndIterCore_spec ..
